@@ -281,12 +281,13 @@ static MPT_STRUCT(connection) *pcon = &ccon_store;
 static MPT_INTERFACE(input) *cremote;    /* mpt_output_remote(): input interface first in the object (struct out_data) */
 #define CREMOTE_OUT (&((MPT_STRUCT(out_data) *) cremote)->_out)
 static int ccon_open;
+static int ccon_moved;      /* after `c reassign`: only `c dreply` until the next `c open` */
 static int ccon_fresh;      /* opened, nothing sent or handled yet */
 
 static void ccon_close(void)
 {
 	if (!ccon_open) return;
-	ccon_open = 0;
+	ccon_open = 0; ccon_moved = 0;
 	/* the last reference of the output object closes its connection */
 	if (cremote) { cremote->_vptr->meta.unref((void *) cremote); cremote = 0; pcon = &ccon_store; }
 	else mpt_connection_fini(&ccon);
@@ -359,6 +360,7 @@ static void con_op(void)
 {
 	const char *op = drv_w[1];
 	size_t a;
+	if (ccon_moved && strcmp(op, "dreply") && strcmp(op, "open")) { puts("bad-op"); return; }
 	if (!strcmp(op, "open") && drv_nw == 4 && (!strcmp(drv_w[3], "dgram") || !strcmp(drv_w[3], "rdgram"))) {
 		if (drv_parse_nat(drv_w[2], &a) || a > 255) { puts("bad-op"); return; }
 		sin_close(); ccon_release(); ccon_close(); sin_drop_peer();
@@ -472,6 +474,23 @@ static void con_op(void)
 		printf("R %s | C ", (r1 < 0 || r2 < 0) ? "refused" : "ok");
 		con_frames();
 		printf(" | I ret=%zd,%zd\n", r1, r2);
+	}
+	else if (!strcmp(op, "reassign") && drv_nw == 2) {
+		/* the connection gets a new target (mpt_connection_assign -> mpt_connection_close): commands still waiting are told
+		 * so, the reply context is released; handles deferred before stay with the driver.  Afterwards only
+		 * `c dreply` is accepted until the next `c open` (what arrives at the NEW peer is shown) */
+		if (!ccon_open || ccon_moved) { puts("bad-op"); return; }
+		int sv[2];
+		if (socketpair(AF_UNIX, ccon_dgram ? SOCK_DGRAM : SOCK_STREAM, 0, sv) < 0) { puts("R nosocket | C - | I ret=0"); return; }
+		MPT_STRUCT(socket) sock; sock._id = sv[0];
+		creplen = 0;
+		int r = mpt_connection_assign(&ccon, &sock);
+		close(sv[0]);
+		sin_drop_peer();
+		sin_peer = sv[1]; sin_fd0 = -1;
+		ccon_moved = 1;
+		printf("R %s | C %s | I ret=0\n", r < 0 ? "refused" : "ok", creplen ? crep : "-");
+		creplen = 0;
 	}
 	else if (!strcmp(op, "probe") && drv_nw == 2) {
 		/* the other interfaces of the output object: conversions, reference count, clone, object property */
